@@ -10,6 +10,7 @@ package main
 
 import (
 	"fmt"
+	"regexp"
 	"sort"
 	"strings"
 
@@ -99,6 +100,11 @@ func truthCheck(a *hSchema, s0 *schema.Schema, how string) []viol {
 			}
 			if hc.PKInline {
 				pkDecl = append(pkDecl, hc.Name)
+			}
+			// declared type text: name and parameters as inspected
+			// (hand-written statements only: the planner itself drops the parameters - C03-type-with-size)
+			if want, got := typeParams(hc.Type), inspectedTypeParams(c.Type.Type); how == "hand" && want != got {
+				add("truth-type", "table %q column %q: declared type %q, inspected %s", ht.Name, hc.Name, hc.Type, got)
 			}
 			// AUTOINCREMENT
 			got := false
@@ -257,4 +263,47 @@ func truthCheck(a *hSchema, s0 *schema.Schema, how string) []viol {
 		}
 	}
 	return v
+}
+
+var reTypeDecl = regexp.MustCompile(`^\s*([A-Za-z ]+?)\s*(?:\(\s*(\d+)\s*(?:,\s*(\d+)\s*)?\))?\s*$`)
+
+// typeParams: "numeric(10,2)" -> "numeric/10/2", "varchar(20)" -> "varchar/20/", "int" -> "int//"
+func typeParams(decl string) string {
+	m := reTypeDecl.FindStringSubmatch(strings.ToLower(decl))
+	if m == nil {
+		return "?" + decl
+	}
+	return m[1] + "/" + m[2] + "/" + m[3]
+}
+
+func inspectedTypeParams(t schema.Type) string {
+	z := func(n int) string {
+		if n == 0 {
+			return ""
+		}
+		return fmt.Sprint(n)
+	}
+	switch t := t.(type) {
+	case *schema.DecimalType:
+		return strings.ToLower(t.T) + "/" + z(t.Precision) + "/" + z(t.Scale)
+	case *schema.StringType:
+		return strings.ToLower(t.T) + "/" + z(t.Size) + "/"
+	case *schema.IntegerType:
+		return strings.ToLower(t.T) + "//"
+	case *schema.FloatType:
+		return strings.ToLower(t.T) + "//"
+	case *schema.BoolType:
+		return strings.ToLower(t.T) + "//"
+	case *schema.BinaryType:
+		return strings.ToLower(t.T) + "//"
+	case *schema.TimeType:
+		return strings.ToLower(t.T) + "//"
+	case *schema.JSONType:
+		return strings.ToLower(t.T) + "//"
+	case *schema.UUIDType:
+		return strings.ToLower(t.T) + "//"
+	case *sqlite.UserDefinedType:
+		return strings.ToLower(t.T) + "//"
+	}
+	return fmt.Sprintf("%T", t)
 }
